@@ -137,4 +137,139 @@ theorem scatFold_ok (ndim : Nat) (fits : Int → Bool) (n ncols : Nat) (vals : L
             · exact hex ⟨e', he', hh'⟩
           rw [if_neg (fun h => hh h.1), if_neg this]
 
+theorem cell_inj (m r c r' c' : Nat) (hc : c < m) (hc' : c' < m) (h : r * m + c = r' * m + c') :
+    r = r' ∧ c = c' := by
+  have hm : 0 < m := by omega
+  have h1 : (m * r + c) / m = r := by rw [Nat.mul_add_div hm, Nat.div_eq_of_lt hc]; rfl
+  have h2 : (m * r' + c') / m = r' := by rw [Nat.mul_add_div hm, Nat.div_eq_of_lt hc']; rfl
+  have h3 : (m * r + c) % m = c := by rw [Nat.mul_add_mod, Nat.mod_eq_of_lt hc]
+  have h4 : (m * r' + c') % m = c' := by rw [Nat.mul_add_mod, Nat.mod_eq_of_lt hc']
+  have h' : m * r + c = m * r' + c' := by rw [Nat.mul_comm m r, Nat.mul_comm m r']; exact h
+  rw [h'] at h1 h3
+  exact ⟨h1.symm.trans h2, h3.symm.trans h4⟩
+
+/-- number of columns of the flat output -/
+def ncolsOf (i : IIndex) : Nat := if i.ndim > 1 then i.shape.getD 1 0 else 1
+
+/-- for one- and two-axis shapes a higher-coordinate tuple is a column number -/
+theorem hi_col (i : IIndex) (hpos : 0 < i.ndim) (hnd : i.ndim ≤ 2) (hi : List Int)
+    (hhi : hi ∈ hiCells (i.shape.drop 1)) :
+    ∃ c, c < ncolsOf i ∧ ∀ k : Key, k.length = i.ndim → k.drop 1 ∈ hiCells (i.shape.drop 1) →
+      (colOf i.ndim k < ncolsOf i ∧ (k.drop 1 = hi ↔ colOf i.ndim k = c)) := by
+  unfold ncolsOf colOf at *
+  unfold IIndex.ndim at *
+  match hs : i.shape with
+  | [] => rw [hs] at hpos; simp at hpos
+  | [n] =>
+    rw [hs] at hhi
+    simp only [List.drop_succ_cons, List.drop_zero, hiCells, List.mem_singleton] at hhi
+    subst hhi
+    refine ⟨0, by simp, fun k hk hk2 => ?_⟩
+    simp only [List.drop_succ_cons, List.drop_zero, hiCells, List.mem_singleton, List.drop_nil] at hk2
+    simp [hk2]
+  | [n, m] =>
+    rw [hs] at hhi
+    simp only [List.drop_succ_cons, List.drop_zero, hiCells, List.mem_flatMap, List.mem_range, List.mem_map,
+      List.mem_singleton] at hhi
+    obtain ⟨c, hc, t, rfl, rfl⟩ := hhi
+    refine ⟨c, by simp [hc], fun k hk hk2 => ?_⟩
+    simp only [List.drop_succ_cons, List.drop_zero, hiCells, List.mem_flatMap, List.mem_range, List.mem_map,
+      List.mem_singleton] at hk2
+    obtain ⟨c', hc', t', rfl, hk3⟩ := hk2
+    match k, hk with
+    | [a, b], _ =>
+      simp only [List.drop_succ_cons, List.drop_zero, List.cons.injEq, and_true] at hk3
+      subst hk3
+      simp
+      constructor
+      · exact hc'
+      · omega
+  | _ :: _ :: _ :: _ => rw [hs] at hnd; simp at hnd
+
+/-- what the scatter needs of an index (weaker than `WF`: entries with no rows are ignored, nothing is
+asked about sortedness or the common value) -/
+structure Scatterable (i : IIndex) : Prop where
+  ndimPos : 0 < i.ndim
+  arity : ∀ e ∈ i.entries, e.2 ≠ [] → e.1.length = i.ndim
+  hiRange : ∀ e ∈ i.entries, e.2 ≠ [] → e.1.drop 1 ∈ hiCells (i.shape.drop 1)
+  exclusive : ∀ e ∈ i.entries, ∀ f ∈ i.entries, e.1.drop 1 = f.1.drop 1 →
+    ∀ r, r ∈ e.2 → r ∈ f.2 → val0 e.1 = val0 f.1
+
+theorem WF.scatterable {i : IIndex} (h : WF i) : Scatterable i :=
+  ⟨h.ndimPos, fun e he _ => h.arity e he, fun e he _ => h.hiRange e he, h.exclusive⟩
+
+theorem denseAt_of_mem' (i : IIndex) (h : Scatterable i) (e : Key × Rows) (he : e ∈ i.entries)
+    (r : Nat) (hi : List Int) (hhi : e.1.drop 1 = hi) (hr : r ∈ e.2) : denseAt i r hi = val0 e.1 :=
+  denseAt_eq i r hi _ ⟨e, he, hhi, hr⟩
+    (fun f hf hf1 hf2 => h.exclusive f hf e he (by rw [hf1, hhi]) r hf2 hr)
+
+theorem scatter_dense (i : IIndex) (h : Scatterable i) (hnd : i.ndim ≤ 2) (dt : Option DT) (arr : Arr)
+    (ht : scatter i i.common dt (i.entries.map fun e => (e.1, e.2, val0 e.1)) = .ok arr) :
+    arr.shape = i.shape ∧ ∀ r < i.nrows, ∀ hi ∈ hiCells (i.shape.drop 1),
+      arr.data.getD (r * ncolsOf i + colOf i.ndim (0 :: hi)) 0 = denseAt i r hi := by
+  unfold scatter at ht
+  have hnd' : ¬ i.ndim > 2 := by omega
+  simp only [hnd', if_false, pure, Except.pure, bind, Except.bind] at ht
+  by_cases hfill : (!dtFits dt i.common) = true
+  · simp [hfill, throw, throwThe, MonadExceptOf.throw] at ht
+  · simp only [hfill, Bool.false_eq_true, if_false] at ht
+    have hnc : (if i.ndim > 1 then i.shape.getD 1 0 else 1) = ncolsOf i := rfl
+    rw [hnc] at ht
+    cases hf : List.foldlM (scatStep i.ndim (dtFits dt) i.nrows (ncolsOf i))
+        (Array.replicate (i.nrows * ncolsOf i) i.common)
+        (List.map (fun e => (e.fst, e.snd, val0 e.fst)) i.entries) with
+    | error err => rw [hf] at ht; cases ht
+    | ok out =>
+      rw [hf] at ht
+      simp only [Except.ok.injEq] at ht
+      subst ht
+      refine ⟨rfl, fun r hr hi hhi => ?_⟩
+      obtain ⟨hsz, hcell⟩ := scatFold_ok _ _ _ _ _ _ _ hf
+      obtain ⟨c, hc, hkey⟩ := hi_col i h.ndimPos hnd hi hhi
+      have hlen : (0 :: hi).length = i.ndim := by
+        have := hiCells_length _ hi hhi
+        have hp := h.ndimPos
+        simp only [List.length_cons, this, List.length_drop, IIndex.ndim] at *
+        omega
+      have hc0 : colOf i.ndim (0 :: hi) = c := ((hkey (0 :: hi) hlen (by simpa using hhi)).2).mp (by simp)
+      rw [hc0]
+      have hj : r * ncolsOf i + c < (Array.replicate (i.nrows * ncolsOf i) i.common).size := by
+        rw [Array.size_replicate]
+        have := Nat.mul_le_mul_right (ncolsOf i) (Nat.succ_le_of_lt hr)
+        rw [Nat.succ_mul] at this
+        omega
+      -- which entries write this cell
+      have hhits : ∀ e ∈ i.entries, Hits i.ndim (ncolsOf i) (e.1, e.2, val0 e.1) (r * ncolsOf i + c) ↔
+          (e.1.drop 1 = hi ∧ r ∈ e.2) := by
+        intro e he
+        by_cases hemp : e.2 = []
+        · constructor
+          · rintro ⟨r', hr', _⟩; rw [hemp] at hr'; simp at hr'
+          · rintro ⟨_, h2⟩; rw [hemp] at h2; simp at h2
+        have hk := hkey e.1 (h.arity e he hemp) (h.hiRange e he hemp)
+        constructor
+        · rintro ⟨r', hr', heq⟩
+          obtain ⟨h1, h2⟩ := cell_inj _ _ _ _ _ hc hk.1 heq
+          exact ⟨hk.2.mpr h2.symm, h1 ▸ hr'⟩
+        · rintro ⟨h1, h2⟩
+          exact ⟨r, h2, by rw [hk.2.mp h1]⟩
+      have hval : ∀ e' ∈ List.map (fun e => (e.fst, e.snd, val0 e.fst)) i.entries,
+          Hits i.ndim (ncolsOf i) e' (r * ncolsOf i + c) → e'.2.2 = denseAt i r hi := by
+        intro e' he' hh
+        obtain ⟨e, he, rfl⟩ := List.mem_map.mp he'
+        obtain ⟨h1, h2⟩ := (hhits e he).mp hh
+        exact (denseAt_of_mem' i h e he r hi h1 h2).symm
+      have := hcell _ hj (denseAt i r hi) hval
+      rw [List.getD_eq_getElem?_getD, Array.getElem?_toList, this]
+      by_cases hex : ∃ e' ∈ List.map (fun e => (e.fst, e.snd, val0 e.fst)) i.entries,
+          Hits i.ndim (ncolsOf i) e' (r * ncolsOf i + c)
+      · rw [if_pos hex]; rfl
+      · rw [if_neg hex, Array.getElem?_replicate]
+        rw [Array.size_replicate] at hj
+        rw [if_pos hj]
+        symm
+        apply denseAt_of_not_mem
+        intro e he h1 h2
+        exact hex ⟨_, List.mem_map.mpr ⟨e, he, rfl⟩, (hhits e he).mpr ⟨h1, h2⟩⟩
+
 end Catii.IIdx
